@@ -131,10 +131,13 @@ impl BuildSystem {
                     }
                     Ok(None) => {}
                     Err(e) => {
+                        // Present but unusable: falling back to the defaults would silently
+                        // drop every setting of the file
                         self.logger.warning(&format!(
-                            "Failed to load config from tauri.conf.json: {}. Using defaults.",
+                            "Failed to load config from tauri.conf.json: {}",
                             e
                         ));
+                        return Err(e);
                     }
                 }
             }
@@ -149,10 +152,9 @@ impl BuildSystem {
                     return Ok(config);
                 }
                 Err(e) => {
-                    self.logger.warning(&format!(
-                        "Failed to load config from typegen.json: {}. Using defaults.",
-                        e
-                    ));
+                    self.logger
+                        .warning(&format!("Failed to load config from typegen.json: {}", e));
+                    return Err(e);
                 }
             }
         }
